@@ -320,6 +320,17 @@ def _coerce_iterable_units(input_object, registry=None):
     return ret
 
 
+def _float_out_view(out):
+    # ndarray view of a ufunc's ``out`` array; an integer array is first
+    # converted in place to floats of the same width
+    if out.dtype.kind in ("u", "i"):
+        new_dtype = "f" + str(out.dtype.itemsize)
+        float_values = out.astype(new_dtype)
+        out.dtype = new_dtype
+        np.copyto(out, float_values)
+    return out.view(np.ndarray)
+
+
 def _sanitize_units_convert(possible_units, registry):
     if isinstance(possible_units, Unit):
         return possible_units
@@ -1822,12 +1833,10 @@ class unyt_array(np.ndarray):
                 out_func = tuple(out_func)
             else:
                 out = out[0]
-                if out.dtype.kind in ("u", "i"):
-                    new_dtype = "f" + str(out.dtype.itemsize)
-                    float_values = out.astype(new_dtype)
-                    out.dtype = new_dtype
-                    np.copyto(out, float_values)
-                out_func = out.view(np.ndarray)
+                # the view is taken by _float_out_view once the operands
+                # have been validated, so that a rejected operation
+                # leaves an integer ``out`` untouched
+                out_func = None
         if len(inputs) == 1:
             # Unary ufuncs
             inp = inputs[0]
@@ -1841,6 +1850,8 @@ class unyt_array(np.ndarray):
                 mul, unit = _apply_power_mapping(ufunc, u, inp.size, inp.shape, kwargs)
             else:
                 mul, unit = self._ufunc_registry[ufunc](u)
+            if out is not None and out_func is None:
+                out_func = _float_out_view(out)
             # evaluate the ufunc
             out_arr = func(np.asarray(inp), out=out_func, **kwargs)
             # use type(self) here so we can support user-defined
@@ -2014,6 +2025,8 @@ class unyt_array(np.ndarray):
                         "Quantities with units of Fahrenheit or Celsius "
                         "cannot be multiplied, divided, subtracted or added."
                     )
+            if out is not None and out_func is None:
+                out_func = _float_out_view(out)
             # actually evaluate the ufunc
             out_arr = func(
                 inp0.view(np.ndarray), inp1.view(np.ndarray), out=out_func, **kwargs
@@ -2035,7 +2048,7 @@ class unyt_array(np.ndarray):
                     else:
                         inp.append(i)
                 if out is not None:
-                    _out = out.view(np.ndarray)
+                    _out = _float_out_view(out)
                 else:
                     _out = None
                 out_arr = ufunc(*inp, out=_out)
